@@ -977,8 +977,12 @@ def oracle(prog, res):
     pyp = res["py"]["phases"]
     if len(ph) != len(pyp):
         return out
+    def usage(q):
+        # new String[n] stores the element count in front of the block (8 bytes under the mock): allocator bookkeeping that
+        # follows the number of non-empty lists, not the amount of live data - left out of the comparison
+        return q[2] - STR_COOKIE * q[1] if prog.get("elem") == "str" else q[2]
     for k in range(1, len(ph) - 1):
-        if pyp[k]["live"] == pyp[k + 1]["live"] and ph[k][2] is not None and ph[k + 1][2] is not None and ph[k][2] != ph[k + 1][2]:
+        if pyp[k]["live"] == pyp[k + 1]["live"] and ph[k][2] is not None and ph[k + 1][2] is not None and usage(ph[k]) != usage(ph[k + 1]):
             out.append(("leak", f"CPython's live list data is {pyp[k]['live']} elements after pass {k - 1} and after pass {k}, the "
                                 f"firmware's live heap went from {ph[k][2]} to {ph[k + 1][2]} bytes ({ph[k][1]} -> {ph[k + 1][1]} blocks)",
                         ph[k][2], ph[k + 1][2]))
